@@ -31,7 +31,20 @@ var c14Fams = []selFam{
 	{`^[a-c]_id$`, []string{"a_id", "c_id"}, []string{"d_id", "a_idx"}},
 	{`_id$`, []string{"user_id", "_id"}, []string{"id_", "identity"}},
 	{`^(SSN|NHS_ID|phoneNumber)$`, []string{"NHS_ID", "phoneNumber"}, []string{"nhs_id", "phone"}},
+	// unanchored patterns that also match the NAME OF A COMMAND PART ("filter", "documents",
+	// "update(s)", "deletes", "query"): those are not field names on the path from the document root
+	{`ter`, []string{"counter", "terms"}, []string{"status", "tier"}},
+	{`doc`, []string{"docs", "doctor"}, []string{"dok", "d_oc"}},
+	{`pdate`, []string{"lastupdate", "updated"}, []string{"pdat", "updat"}},
+	{`elete`, []string{"deletedAt", "athlete_delete"}, []string{"delet", "eleet"}},
+	{`uer`, []string{"queryId", "conquer"}, []string{"quer_", "user"}},
 }
+
+// keys that are part of the command / stage grammar, not field names of the document: the zone key
+// itself, the statement members of updates[] / deletes[], and arguments of stages and expressions.
+// A pattern that matches one of the latter (or any '$' operator) on a leaf's path makes the verdict
+// a matter of interpretation: such leaves are counted, not judged.
+var c14StageArgKeys = map[string]bool{"pipeline": true, "let": true, "from": true, "as": true, "into": true, "coll": true, "db": true, "newRoot": true, "input": true, "in": true, "cond": true, "vars": true, "branches": true, "case": true, "then": true, "else": true, "default": true, "if": true, "initialValue": true, "output": true, "boundaries": true, "groupBy": true, "query": true, "filter": true, "whenMatched": true, "startWith": true, "restrictSearchWithMatch": true, "partitionBy": true, "sortBy": true, "range": true, "bounds": true, "near": true, "documents": true, "update": true, "updates": true, "deletes": true, "sort": true}
 
 var c14Search = map[string]bool{"$search": true, "$searchMeta": true, "$vectorSearch": true, "$rankFusion": true}
 
@@ -70,20 +83,32 @@ func c14Judge(c *ev.Check, re *regexp.Regexp, sn Seen, cells map[string]int, mu 
 		if o.Tag == nil || !o.Own || o.Tag.Role != jt.Sens || o.Mismatch != "" || len(o.Path) < 3 {
 			return
 		}
-		should, inSearch := false, false
-		for _, p := range o.Path[2:] {
+		should, inSearch, ambiguous := false, false, false
+		zone := o.Path[2]
+		for i, p := range o.Path[2:] {
 			if strings.HasPrefix(p, "[") {
 				continue
 			}
 			if c14Search[p] {
 				inSearch = true
 			}
+			if i == 0 || (i == 2 && (zone == "updates" || zone == "deletes")) {
+				continue // the command part's own name / the statement member (q, u, c, limit …): not a field name
+			}
 			if re.MatchString(p) {
-				should = true
+				if strings.HasPrefix(p, "$") || c14StageArgKeys[p] {
+					ambiguous = true
+				} else {
+					should = true
+				}
 			}
 		}
 		if inSearch {
 			c.Count("leaves_in_search_stages_not_judged", 1)
+			return
+		}
+		if ambiguous && !should {
+			c.Count("leaves_under_a_matching_operator_or_stage_argument_not_judged", 1)
 			return
 		}
 		if !should {
